@@ -62,11 +62,14 @@ SnSurrounded(sn) == \A a \in Actions : ~SnLegal(sn, a)
 
 (* ---------------- decoding / encoding jumanji's state ---------------- *)
 SnOrder(s, c) == s.body_state[c[1]][c[2]]
-BodyCells(s) == { c \in AllCells : SnOrder(s, c) > 0 }
-SnakeOf(s) == LET bc == BodyCells(s) IN [j \in 1..s.length |-> CHOOSE c \in bc : SnOrder(s, c) = s.length + 1 - j]
+BodyCells(s) == TLCEval({ c \in AllCells : SnOrder(s, c) > 0 })    \* (TLCEval: an enumerated set, not a lazy filter)
+(* (TLC evaluates a LET definition anew at every reference but an operator ARGUMENT only once: values that are used
+   many times - the set of body cells, the decoded snake - are handed down as arguments.) *)
+SnakeOfCells(s, bc) == [j \in 1..s.length |-> CHOOSE c \in bc : SnOrder(s, c) = s.length + 1 - j]
+SnakeOf(s) == SnakeOfCells(s, BodyCells(s))
+OrderGridOf(sn, cells, rank) == [r \in 1..NR |-> [c \in 1..NC |-> IF <<r, c>> \in cells THEN rank[<<r, c>>] ELSE 0]]
 OrderGrid(sn) ==
-  [r \in 1..NR |-> [c \in 1..NC |->
-     IF <<r, c>> \in Range(sn) THEN Len(sn) + 1 - (CHOOSE j \in 1..Len(sn) : sn[j] = <<r, c>>) ELSE 0]]
+  OrderGridOf(sn, Range(sn), [c \in Range(sn) |-> Len(sn) + 1 - (CHOOSE j \in 1..Len(sn) : sn[j] = c)])
 
 (* ---------------- physical invariants of a state (C07), from the raw arrays ---------------- *)
 GridShape(g) == Len(g) = NR /\ \A r \in 1..NR : Len(g[r]) = NC
@@ -94,38 +97,56 @@ PhysInv(s) == InBounds(s) /\ IsChain(s) /\ PositionsAgree(s) /\ OneTail(s) /\ Fr
 (* ---------------- rules on states ---------------- *)
 Decodable(s) == InBounds(s) /\ IsChain(s) /\ HeadAgrees(s)     \* the order grid reads as a snake
 Legal(s, a) == SnLegal(SnakeOf(s), a)
-Mask(s) == [j \in 1..4 |-> Legal(s, j - 1)]
+MaskOf(sn) == [j \in 1..4 |-> SnLegal(sn, j - 1)]
+Mask(s) == MaskOf(SnakeOf(s))
 (* second, order-based formulation of the same rule (used by the MC model to cross-check the first):
    the target cell is inside the grid and is free or is the tail *)
 LegalByOrder(s, a) ==
   LET nh == SnNewHead(<<SnCell(s.head_position)>>, a) IN InGrid(NR, NC, nh) /\ SnOrder(s, nh) <= 1
 
-Eats(s, a) == SnNewHead(SnakeOf(s), a) = SnCell(s.fruit_position)
-SuccSnake(s, a) == SnMove(SnakeOf(s), a, Eats(s, a))
+(* One move, decoded once: the snake read off the state, whether the move is legal, whether it eats, the successor
+   snake.  (A record is evaluated eagerly: a trace line of a 144-cell board decodes its snake once, not once per rule.) *)
+MoveOf(sn, s, a) ==
+  LET nh == SnNewHead(sn, a)
+      eats == nh = SnCell(s.fruit_position) IN
+  [sn |-> sn, nh |-> nh, legal |-> SnLegal(sn, a), eats |-> eats, succ |-> SnMove(sn, a, eats)]
+Move(s, a) == MoveOf(SnakeOf(s), s, a)
 
-Reward(s, a) == IF Legal(s, a) /\ Eats(s, a) THEN 1 ELSE 0
+Eats(s, a) == Move(s, a).eats
+SuccSnake(s, a) == Move(s, a).succ
+RewardM(m) == IF m.legal /\ m.eats THEN 1 ELSE 0
+Reward(s, a) == RewardM(Move(s, a))
 
-(* field-wise transition relation; t is the (projected) successor.  After an invalid move the episode is
-   over and the documentation does not say what the state holds: only the step counter is prescribed. *)
-RelBodyState(s, a, t) == Legal(s, a) => t.body_state = OrderGrid(SuccSnake(s, a))
-RelHead(s, a, t)      == Legal(s, a) => t.head_position = SnPos(SnNewHead(SnakeOf(s), a))
-RelLength(s, a, t)    == Legal(s, a) => t.length = s.length + (IF Eats(s, a) THEN 1 ELSE 0)
-RelStepCount(s, a, t) == t.step_count = s.step_count + 1
-RelFruit(s, a, t) ==
-  Legal(s, a) =>
-    IF Eats(s, a)
-    THEN \/ SnFull(SuccSnake(s, a))                                   \* no admissible cell: game over, unconstrained
-         \/ PosInGrid(t.fruit_position) /\ SnCell(t.fruit_position) \in SnFree(SuccSnake(s, a))
+(* field-wise transition relation; t is the (projected) successor, m == Move(s, a).  After an invalid move the episode
+   is over and the documentation does not say what the state holds: only the step counter is prescribed. *)
+RelBodyStateM(m, s, t) == m.legal => t.body_state = OrderGrid(m.succ)
+RelHeadM(m, s, t)      == m.legal => t.head_position = SnPos(m.nh)
+RelLengthM(m, s, t)    == m.legal => t.length = s.length + (IF m.eats THEN 1 ELSE 0)
+RelStepCount(s, a, t)  == t.step_count = s.step_count + 1
+RelFruitM(m, s, t) ==
+  m.legal =>
+    IF m.eats
+    THEN \/ SnFull(m.succ)                                   \* no admissible cell: game over, unconstrained
+         \/ PosInGrid(t.fruit_position) /\ SnCell(t.fruit_position) \in SnFree(m.succ)
     ELSE t.fruit_position = s.fruit_position
-StepRel(s, a, t) ==
-  RelBodyState(s, a, t) /\ RelHead(s, a, t) /\ RelLength(s, a, t) /\ RelStepCount(s, a, t) /\ RelFruit(s, a, t)
+RelBodyState(s, a, t) == RelBodyStateM(Move(s, a), s, t)
+RelHead(s, a, t)      == RelHeadM(Move(s, a), s, t)
+RelLength(s, a, t)    == RelLengthM(Move(s, a), s, t)
+RelFruit(s, a, t)     == RelFruitM(Move(s, a), s, t)
+StepRelM(m, s, a, t) ==
+  RelBodyStateM(m, s, t) /\ RelHeadM(m, s, t) /\ RelLengthM(m, s, t) /\ RelStepCount(s, a, t) /\ RelFruitM(m, s, t)
+StepRel(s, a, t) == StepRelM(Move(s, a), s, a, t)
 
 (* termination, with the time limit as a parameter (the MC model ranges over several limits) *)
-EndInvalid(s, a)    == ~Legal(s, a)
-EndCompleted(s, a)  == Legal(s, a) /\ SnFull(SuccSnake(s, a))
-EndSurrounded(s, a) == Legal(s, a) /\ SnSurrounded(SuccSnake(s, a))
+EndInvalidM(m)    == ~m.legal
+EndCompletedM(m)  == m.legal /\ SnFull(m.succ)
+EndSurroundedM(m) == m.legal /\ SnSurrounded(m.succ)
+EndInvalid(s, a)    == EndInvalidM(Move(s, a))
+EndCompleted(s, a)  == EndCompletedM(Move(s, a))
+EndSurrounded(s, a) == EndSurroundedM(Move(s, a))
 EndTime(s, T)       == s.step_count + 1 >= T
-DoneT(s, a, T) == EndInvalid(s, a) \/ EndCompleted(s, a) \/ EndSurrounded(s, a) \/ EndTime(s, T)
+DoneM(m, s, T) == EndInvalidM(m) \/ EndCompletedM(m) \/ EndSurroundedM(m) \/ EndTime(s, T)
+DoneT(s, a, T) == DoneM(Move(s, a), s, T)
 Done(s, a) == DoneT(s, a, Cfg.time_limit)
 
 (* ---------------- reset (C10) ---------------- *)
@@ -140,18 +161,18 @@ WellFormedInstance(s) ==
 (* five feature planes per cell, in this order: body, head, tail, fruit, normalised body order
    (order / length: 1 at the head, 1/length at the tail, 0 on free cells); floats in fixed point *)
 B2F(b) == IF b THEN FX ELSE 0
+CellBody(s, c)  == B2F(SnOrder(s, c) > 0)
+CellHead(s, c)  == B2F(c = SnCell(s.head_position))
+CellTail(s, c)  == B2F(SnOrder(s, c) = 1)
+CellFruit(s, c) == B2F(c = SnCell(s.fruit_position))
 ObsCell(s, c) ==
-  [body  |-> B2F(SnOrder(s, c) > 0),
-   head  |-> B2F(c = SnCell(s.head_position)),
-   tail  |-> B2F(SnOrder(s, c) = 1),
-   fruit |-> B2F(c = SnCell(s.fruit_position)),
-   ord   |-> SnOrder(s, c), len |-> s.length]
-PlaneEq(g, s, k, f(_)) == \A c \in AllCells : g[c[1]][c[2]][k] = f(ObsCell(s, c))
-ObsBody(g, s)  == PlaneEq(g, s, 1, LAMBDA o : o.body)
-ObsHead(g, s)  == PlaneEq(g, s, 2, LAMBDA o : o.head)
-ObsTail(g, s)  == PlaneEq(g, s, 3, LAMBDA o : o.tail)
-ObsFruit(g, s) == PlaneEq(g, s, 4, LAMBDA o : o.fruit)
-ObsNorm(g, s)  == \A c \in AllCells : LET o == ObsCell(s, c) IN Near(g[c[1]][c[2]][5], o.ord, o.len, 1)
+  [body |-> CellBody(s, c), head |-> CellHead(s, c), tail |-> CellTail(s, c), fruit |-> CellFruit(s, c),
+   ord |-> SnOrder(s, c), len |-> s.length]
+ObsBody(g, s)  == \A c \in AllCells : g[c[1]][c[2]][1] = CellBody(s, c)
+ObsHead(g, s)  == \A c \in AllCells : g[c[1]][c[2]][2] = CellHead(s, c)
+ObsTail(g, s)  == \A c \in AllCells : g[c[1]][c[2]][3] = CellTail(s, c)
+ObsFruit(g, s) == \A c \in AllCells : g[c[1]][c[2]][4] = CellFruit(s, c)
+ObsNorm(g, s)  == \A c \in AllCells : Near(g[c[1]][c[2]][5], SnOrder(s, c), s.length, 1)
 ObsGridShape(g) == Len(g) = NR /\ \A r \in 1..NR : Len(g[r]) = NC /\ \A c \in 1..NC : Len(g[r][c]) = 5
 
 (* ---------------- objective (C08) ---------------- *)
